@@ -142,6 +142,9 @@ def gen_streams(tier):
             return nmea.line(tag=marker(i) + hi, payload=b"1" + F.rand_armor(rnd, 3))                  # too short
         if k == 5:
             return b"$GPGGA," + marker(i) + b",123519,4807.038,N" + hi
+        if rnd.random() < 0.5:      # numbering outside 1 <= k <= n (what is printed is not judged; surviving it is)
+            n, kk = rnd.choice([(0, 1), (2, 3), (1, 2), (0, 0), (1, 0), (255, 255), (3, 200)])
+            return nmea.line(tag=marker(i) + hi, n=n, k=kk, sid=rnd.choice([None, 1]), payload=F.rand_armor(rnd, rnd.randrange(1, 20)))
         return nmea.line(tag=marker(i) + hi, payload=b"", fill=0)
 
     def assemble(lines, term=b"\n", final_newline=True):
@@ -164,6 +167,10 @@ def gen_streams(tier):
     streams.append(assemble([valid_single(), b"\xff\xfe\xfd " + marker(nxt()), valid_single()]))
     streams.append(assemble([b"\x00" + marker(nxt()), b"\r", b"\r\r", valid_single()]))
     streams.append(assemble([b"x" * 100000 + marker(nxt()), valid_single()]))
+    streams.append(assemble([valid_single(), b"y" * 5000 + marker(nxt())], final_newline=False))    # over-long unterminated last line
+    streams.append(assemble([valid_single(), nmea.line(tag=marker(nxt()), n=0, k=1, payload=b"15M"), valid_single()]))
+    g3 = group(3)
+    streams.append(assemble([g3[0], g3[1], nmea.line(tag=marker(nxt()), n=2, k=3, sid=None, payload=b"0000"), valid_single()]))
     streams.append(assemble([(b"\\" + marker(nxt()) + b"\\" + s) if not s.startswith(b"\\") and s.startswith(b"!") else (b"junk " + marker(nxt()))
                              for s in corpus.SENTENCES]))
     # random mixtures
